@@ -20,6 +20,8 @@ import traceback
 ROOT = os.path.dirname(os.path.dirname(os.path.abspath(__file__)))
 if ROOT not in sys.path:
     sys.path.insert(0, ROOT)
+# evidence and replay files go under /verif; experiments against scratch trees (tools/run_seeds_parallel.py) redirect them
+OUT = os.environ.get("PYVC_OUT") or ROOT
 
 
 def _worker(job):
@@ -179,8 +181,8 @@ def main(argv=None):
     # a recorded finding is keyed by function/clause/region, whichever property's check re-derives it
     findings = [f for f in load_findings() if f.get("status", "open") == "open"]
     import shutil
-    shutil.rmtree(os.path.join(ROOT, "replays", pid), ignore_errors=True)
-    os.makedirs(os.path.join(ROOT, "replays", pid), exist_ok=True)
+    shutil.rmtree(os.path.join(OUT, "replays", pid), ignore_errors=True)
+    os.makedirs(os.path.join(OUT, "replays", pid), exist_ok=True)
     violations, undecided, failures, known_lines = [], [], [], []
     n_obl = n_dis = 0
     per_fn, samples_out, trusted, models_used = [], [], set(), set()
@@ -225,7 +227,7 @@ def main(argv=None):
                 extra = sorted(set((still or {}).get("cases", [])) - set(kf.get("cases", (still or {}).get("cases", []))))
                 if still and extra:
                     # the witness scenario now fails in cases the finding does not list: a different violation
-                    rfile = os.path.join(ROOT, "replays", pid, _safe(f"{r['target']}__{cv['obligation']}__new_cases") + ".json")
+                    rfile = os.path.join(OUT, "replays", pid, _safe(f"{r['target']}__{cv['obligation']}__new_cases") + ".json")
                     json.dump(dict(property=pid, obligation=f"{pid}/{r['target']}/{cv['obligation']}", function=r["target"],
                                    status="failing cases beyond the recorded known finding", new_cases=extra, replays=[still]),
                               open(rfile, "w"), indent=1, default=str)
@@ -261,7 +263,7 @@ def main(argv=None):
                 n_dis += 0
                 known_lines.append((kf, full, confirmed))
                 continue
-            rfile = os.path.join(ROOT, "replays", pid, _safe(f"{r['target']}__{name}") + ".json")
+            rfile = os.path.join(OUT, "replays", pid, _safe(f"{r['target']}__{name}") + ".json")
             payload = dict(property=pid, obligation=full, function=r["target"], source_sha=r["hashes"].get(r["target"], ""),
                            status="counter-model replayed on the real code" if confirmed else "no-failing-input-found",
                            detail=o["detail"], replays=o["replays"], contract_module=r["module"], label=label)
@@ -280,7 +282,7 @@ def main(argv=None):
                     matched_findings.add(kf["id"])
                     known_lines.append((kf, f"{pid}/{r['target']}/{rep['failed'][0]}", rep))
                     continue
-                rfile = os.path.join(ROOT, "replays", pid, _safe(f"{r['target']}__sample_{n_samples}") + ".json")
+                rfile = os.path.join(OUT, "replays", pid, _safe(f"{r['target']}__sample_{n_samples}") + ".json")
                 json.dump(dict(property=pid, obligation=f"{pid}/{r['target']}/{rep['failed'][0]}", function=r["target"],
                                status="bounded sample failed on the real code", replays=[rep], contract_module=r["module"],
                                label=label), open(rfile, "w"), indent=1, default=str)
@@ -307,7 +309,7 @@ def main(argv=None):
                     rep = hook()
                 except Exception:   # noqa
                     rep = dict(error=traceback.format_exc()[-800:], failed=[])
-            rfile = os.path.join(ROOT, "replays", pid, _safe(o["name"]) + ".json")
+            rfile = os.path.join(OUT, "replays", pid, _safe(o["name"]) + ".json")
             json.dump(dict(property=pid, obligation=f"{pid}/{o['name']}", function=o["function"], site=o["site"], line=o["lineno"],
                            status="set iteration order reaches an order-sensitive position; no sanitiser recorded for this site",
                            replays=[rep] if rep else []), open(rfile, "w"), indent=1, default=str)
@@ -328,7 +330,7 @@ def main(argv=None):
                 matched_findings.add(kf["id"])
                 known_lines.append((kf, f"{pid}/{br['function']}/{br['name']}", fail))
                 continue
-            rfile = os.path.join(ROOT, "replays", pid, _safe(f"{br['function']}__{br['name']}") + ".json")
+            rfile = os.path.join(OUT, "replays", pid, _safe(f"{br['function']}__{br['name']}") + ".json")
             json.dump(dict(property=pid, obligation=f"{pid}/{br['function']}/{br['name']}", function=br["function"],
                            status="bounded stand-in failed on the real code", replays=[fail]), open(rfile, "w"), indent=1, default=str)
             violations.append((f"{pid}/{br['function']}/{br['name']}", rfile, True))
@@ -381,8 +383,8 @@ def main(argv=None):
     )
     # an obligation with a listed known finding counts as neither discharged nor as a new violation
     evidence["coverage"]["obligations_with_known_finding"] = known_count
-    os.makedirs(os.path.join(ROOT, "evidence"), exist_ok=True)
-    json.dump(evidence, open(os.path.join(ROOT, "evidence", f"{pid}.json"), "w"), indent=1, default=str)
+    os.makedirs(os.path.join(OUT, "evidence"), exist_ok=True)
+    json.dump(evidence, open(os.path.join(OUT, "evidence", f"{pid}.json"), "w"), indent=1, default=str)
     print(f"{pid}: obligations={n_obl} discharged={n_dis} known-findings={known_count} violations={len(violations)} "
           f"undecided={len(undecided)} functions={len(per_fn)} wall={wall:.1f}s")
     if failures:
